@@ -71,10 +71,14 @@ def is_resource_modified(
         unmodified = True
 
     if etag:
-        etag, _ = unquote_etag(etag)
+        etag, weak = unquote_etag(etag)
 
         if if_range is not None and if_range.etag is not None:
-            unmodified = parse_etags(if_range.etag).contains(etag)
+            # https://tools.ietf.org/html/rfc7233#section-3.2
+            # If-Range uses the strong comparison function: a weak tag on
+            # either side never matches.
+            if_range_weak = unquote_etag(http_if_range)[1]
+            unmodified = not (weak or if_range_weak) and if_range.etag == etag
         else:
             if_none_match = parse_etags(http_if_none_match)
             if if_none_match:
